@@ -262,8 +262,11 @@ class Interp:
 
     def call_func(self, f: FuncInfo, args, kwargs, self_obj=None):
         q = f.qualname
+        cov = self.path.ex.shared.setdefault("coverage", {"executed": set(), "contract": set()})
         if q in self.abstract:
+            cov["contract"].add(q)
             return self.abstract[q](self, *args, **kwargs)
+        cov["executed"].add(q)
         if f.is_abstract or _is_notimplemented(f):
             # dynamic dispatch to an abstract method without a contract
             key = q
